@@ -260,8 +260,14 @@ impl BeatRequest {
             return Err(anyhow::anyhow!("ip or port is empty".to_owned()));
         }
         let service_name_option = beat_info.service_name.clone();
+        // only a grouped name (`group@@service`) in the beat JSON says which group is meant; a
+        // bare service name there must not hide the `serviceName` / `groupName` parameters
+        let beat_names_group = service_name_option
+            .as_ref()
+            .map(|e| e.contains("@@"))
+            .unwrap_or(false);
         let mut instance = beat_info.convert_to_instance();
-        if service_name_option.is_none() {
+        if !beat_names_group {
             if let Some(grouped_name) = self.service_name {
                 if let Some((group_name, service_name)) =
                     NamingUtils::split_group_and_service_name(&grouped_name)
@@ -269,7 +275,7 @@ impl BeatRequest {
                     instance.service_name = Arc::new(service_name);
                     instance.group_name = Arc::new(group_name);
                 }
-            } else {
+            } else if service_name_option.is_none() {
                 return Err(anyhow::anyhow!("service name is empty".to_owned()));
             }
             if let Some(group_name) = self.group_name {
